@@ -232,11 +232,17 @@ impl Real {
                 let scoped = scope_i18n!(ctx, group.deep);
                 let v_leaf = t!(scoped, leaf, name = "N");
                 let v_items = t!(ctx, items, count = || 2);
+                // the format macros on a context: views and closures created now, rendered after later locale changes
+                let v_fnum = leptos_i18n::t_format!(ctx, move || 1234567.5f64, formatter: number);
+                let v_flist = leptos_i18n::tu_format!(ctx, move || ["A", "B", "C"], formatter: list(list_type: and));
                 let readers: Vec<(&'static str, Reader)> = vec![
                     ("t!(hello)", Box::new(move || strip(v_hello().to_html()))),
                     ("t!(greet)", Box::new(move || strip(v_greet().to_html()))),
                     ("t!(scoped leaf)", Box::new(move || strip(v_leaf().to_html()))),
                     ("t!(items)", Box::new(move || strip(v_items().to_html()))),
+                    ("t_format!(number)", Box::new(move || strip(v_fnum.clone().into_view().to_html()))),
+                    ("tu_format!(list)", Box::new(move || strip(v_flist.clone().into_view().to_html()))),
+                    ("t_format_string!(number)", Box::new(move || leptos_i18n::t_format_string!(ctx, 1234567.5f64, formatter: number).to_string())),
                     ("t_string!(hello)", Box::new(move || t_string!(ctx, hello).to_string())),
                     ("tu_string!(hello)", Box::new(move || tu_string!(ctx, hello).to_string())),
                     ("t_display!(greet)", Box::new(move || t_display!(ctx, greet, name = "N").to_string())),
@@ -271,6 +277,13 @@ impl Real {
 
 fn expected_text(which: &str, l: usize) -> String {
     let n = NAMES[l];
+    // formatters: what the eager, locale-explicit macro gives for the context's current locale
+    if which.contains("(number)") {
+        return leptos_i18n::td_format_string!(loc(l), 1234567.5f64, formatter: number).to_string();
+    }
+    if which.contains("(list)") {
+        return leptos_i18n::td_format_string!(loc(l), ["A", "B", "C"], formatter: list(list_type: and)).to_string();
+    }
     if which.contains("hello") {
         format!("hello-{n}")
     } else if which.contains("greet") {
